@@ -16,6 +16,8 @@ import (
 	"github.com/bronlabs/bron-crypto/pkg/base/nt/num"
 	"github.com/bronlabs/bron-crypto/pkg/base/nt/numct"
 	"github.com/bronlabs/bron-crypto/pkg/base/nt/znstar"
+	"github.com/bronlabs/bron-crypto/pkg/commitments/intcom"
+	"github.com/bronlabs/bron-crypto/pkg/proofs/prm"
 	"github.com/bronlabs/bron-crypto/pkg/proofs/paillier/nthroot"
 	"github.com/bronlabs/bron-crypto/pkg/proofs/sigma"
 	"github.com/bronlabs/bron-crypto/pkg/proofs/sigma/compiler"
@@ -124,4 +126,25 @@ func (h *harness) paillier(flipBudget int) {
 		h.niCase(c, comp, 0, r, false, flipBudget)
 	}
 	h.interactive(c, 0, r)
+	h.ringPedersen(flipBudget)
+}
+
+// ringPedersen: the ring-Pedersen parameter proof (prm) with a tiny sampled trapdoor key.
+func (h *harness) ringPedersen(flipBudget int) {
+	r := vh.NewRng(h.a.Seed, "C08", "prm", 0)
+	if p := vh.Safely(func() {
+		td := must(intcom.SampleTrapdoorKey(64, r))
+		td2 := must(intcom.SampleTrapdoorKey(64, r))
+		rec := &recReader{r: r}
+		proto := must(prm.NewProtocol(rec))
+		x, w := must(prm.NewStatement(td.Export())), must(prm.NewWitness(td))
+		x2 := must(prm.NewStatement(td2.Export()))
+		if err := proto.ValidateStatement(x, w); err != nil {
+			panic(err)
+		}
+		c := mkCase("prm/rsa64", proto, rec, x, w, x2, 16)
+		h.niCase(c, fiatshamir.Name, 0, r, false, min(flipBudget, 24))
+	}); p != "" {
+		h.res.Note("ring-Pedersen proof not exercised (setup failed): %s", trunc(p, 300))
+	}
 }
